@@ -15,6 +15,7 @@ import (
 	"sync"
 
 	log "github.com/golang/glog"
+	"github.com/westerndigitalcorporation/blb/pkg/verifhook"
 )
 
 const (
@@ -169,10 +170,12 @@ func (f *ChecksumFile) Size() (bytes int64, err error) {
 // Close the open ChecksumFile.
 func (f *ChecksumFile) Close() (err error) {
 	// Ensure the data is durable.
+	verifhook.At("disk.sync.before", f.path)
 	if e := f.file.Sync(); e != nil {
 		log.Errorf("%s: error syncing: %+v", f.path, e)
 		err = e
 	}
+	verifhook.At("disk.sync.after", f.path, err == nil)
 
 	if f.flags&O_DROPCACHE != 0 {
 		// Have the OS throw any data we have left out of the buffer cache.
@@ -187,6 +190,7 @@ func (f *ChecksumFile) Close() (err error) {
 		}
 	}
 
+	verifhook.At("disk.close.before", f.path)
 	if e := f.file.Close(); e != nil {
 		if err == nil {
 			err = e
@@ -195,6 +199,7 @@ func (f *ChecksumFile) Close() (err error) {
 			log.Errorf("%s: error on sync (%+v) additional error on close: %+v", f.path, err, e)
 		}
 	}
+	verifhook.At("disk.close.after", f.path)
 
 	return err
 }
@@ -559,10 +564,12 @@ func openOsFile(path string, flags int, perm os.FileMode) (mockFile, error) {
 	// We don't care about atime anywhere.
 	flags |= O_NOATIME
 
+	verifhook.At("disk.open.before", path, flags)
 	f, e := os.OpenFile(path, flags, perm)
 	if e != nil {
 		return nil, e
 	}
+	verifhook.At("disk.open.after", path, flags)
 
 	// Sync the directory where the file is located, if the file is new.
 	if flags&os.O_CREATE != 0 {
@@ -580,6 +587,7 @@ func openOsFile(path string, flags int, perm os.FileMode) (mockFile, error) {
 
 // syncDir syncs the given 'dir'.
 func syncDir(dir string) (err error) {
+	verifhook.At("disk.syncdir.before", dir)
 	// Open.
 	fd, err := os.Open(dir)
 	if err != nil {
@@ -595,6 +603,7 @@ func syncDir(dir string) (err error) {
 		}
 		return err
 	}
+	verifhook.At("disk.syncdir.after", dir)
 
 	// Close.
 	if err = fd.Close(); err != nil {
@@ -608,8 +617,10 @@ func syncDir(dir string) (err error) {
 // Rename relies on os.Remove to rename (move) a file and syncs the home
 // directory of the newpath upon success.
 func Rename(oldpath, newpath string) error {
+	verifhook.At("disk.rename.before", oldpath, newpath)
 	if err := os.Rename(oldpath, newpath); err != nil {
 		return err
 	}
+	verifhook.At("disk.rename.after", oldpath, newpath)
 	return syncDir(filepath.Dir(newpath))
 }
